@@ -44,10 +44,13 @@ class _AppendProxy:
 
 
 class FsInterposer:
-    def __init__(self, namer, crash_at=None):
-        """namer(path) -> JSON-able abstract name"""
+    def __init__(self, namer, crash_at=None, observer=None, reads=False):
+        """namer(path) -> JSON-able abstract name; observer(event) is called after every recorded event;
+        reads=True also records torch.load and read-mode opens (not numbered as crash points)"""
         self.namer = namer
         self.crash_at = crash_at
+        self.observer = observer
+        self.reads = reads
         self.k = 0
         self.events = []
         self.crashed = False
@@ -67,6 +70,8 @@ class FsInterposer:
         ev = dict(k=self.k, op=what)
         ev.update(info)
         self.events.append(ev)
+        if self.observer is not None:
+            self.observer(ev)
         if self.crash_at == (self.k, "after"):
             self.crashed = True
             raise Crash("after #%d %s" % (self.k, what))
@@ -78,8 +83,21 @@ class FsInterposer:
         ip = self
         real_replace, real_remove, real_makedirs = os.replace, os.remove, os.makedirs
         real_ntf, real_save, real_open = tempfile.NamedTemporaryFile, torch.save, builtins.open
+        real_load = torch.load
         self._saved = dict(replace=real_replace, remove=real_remove, makedirs=real_makedirs, ntf=real_ntf,
-                           save=real_save, had_open=hasattr(tr, "open"), open=getattr(tr, "open", None))
+                           save=real_save, had_open=hasattr(tr, "open"), open=getattr(tr, "open", None), load=real_load)
+
+        def note_read(what, path):
+            ev = dict(k=ip.k, op=what, path=ip.abstract(path))
+            ip.events.append(ev)
+            if ip.observer is not None:
+                ip.observer(ev)
+
+        def load(f, *a, **kw):
+            out = real_load(f, *a, **kw)
+            if ip.reads:
+                note_read("load", getattr(f, "name", f))
+            return out
 
         def replace(src, dst, *a, **kw):
             ip._before("replace")
@@ -95,7 +113,7 @@ class FsInterposer:
             ip._before("makedirs")
             existed = os.path.isdir(path)
             real_makedirs(path, *a, **kw)
-            ip._after("makedirs", dict(created=not existed))
+            ip._after("makedirs", dict(created=not existed, raw=str(path)))
 
         def ntf(*a, **kw):
             ip._before("mktemp")
@@ -117,11 +135,15 @@ class FsInterposer:
             if "a" in mode or "w" in mode or "+" in mode:
                 ip._before("append")
                 return _AppendProxy(real_open(path, mode, *a, **kw), ip, path)
-            return real_open(path, mode, *a, **kw)
+            f = real_open(path, mode, *a, **kw)
+            if ip.reads:
+                note_read("read", path)
+            return f
 
         os.replace, os.remove, os.makedirs = replace, remove, makedirs
         tempfile.NamedTemporaryFile = ntf
         torch.save = save
+        torch.load = load
         tr.open = open_
         return self
 
@@ -131,6 +153,7 @@ class FsInterposer:
         os.replace, os.remove, os.makedirs = self._saved["replace"], self._saved["remove"], self._saved["makedirs"]
         tempfile.NamedTemporaryFile = self._saved["ntf"]
         torch.save = self._saved["save"]
+        torch.load = self._saved["load"]
         if self._saved["had_open"]:
             tr.open = self._saved["open"]
         else:
